@@ -80,15 +80,31 @@ pub struct Ctx {
 
 impl Ctx {
     pub fn new(phase: &str, nmax: u64) -> Ctx {
-        let fx = NodeFx::new(Network::Regtest, None);
-        let id = new_stub(&fx, 1);
-        let mut ctx = Ctx { fx, id: id.clone(), cc: None, nmax, sigs: HashMap::new() };
-        if phase == "ready" {
-            let setup = test_setup(CHANNEL_VALUE, PUSH_MSAT, CommitmentType::StaticRemoteKey, 2);
-            let cc = ready_channel(&ctx.fx, &id, setup);
-            ctx.cc = Some(cc);
-            ctx.precompute_sigs();
-        }
+        Ctx::with_fx(NodeFx::new(Network::Regtest, None), phase, nmax)
+    }
+
+    pub fn with_fx(fx: NodeFx, phase: &str, nmax: u64) -> Ctx {
+        Ctx::with_fx_opts(fx, phase, nmax, true)
+    }
+
+    /// `precompute = false`: the caller installs the (deterministic) signature table itself
+    pub fn with_fx_opts(fx: NodeFx, phase: &str, nmax: u64, precompute: bool) -> Ctx {
+        let mut ctx = Ctx { fx, id: ChannelId::new(&[0u8; 32]), cc: None, nmax, sigs: HashMap::new() };
+        let probe = NodeFx { node: ctx.fx.node.clone(), store: ctx.fx.store.clone(), clock: ctx.fx.clock.clone(),
+                             policy: None, network: ctx.fx.network, cloud: ctx.fx.cloud.clone() };
+        let phase = phase.to_string();
+        let ((), _) = probe.tx(|| {
+            let id = new_stub(&ctx.fx, 1);
+            ctx.id = id.clone();
+            if phase == "ready" {
+                let setup = test_setup(CHANNEL_VALUE, PUSH_MSAT, CommitmentType::StaticRemoteKey, 2);
+                let cc = ready_channel(&ctx.fx, &id, setup);
+                ctx.cc = Some(cc);
+                if precompute {
+                    ctx.precompute_sigs();
+                }
+            }
+        });
         ctx
     }
 
